@@ -6,34 +6,44 @@ from . import seqs
 ID = "C04"
 LEVEL = "exploration"
 BUDGET = {"quick": 1600, "thorough": 360000}
-RULE = ("case = op list (push/pop/push_at/pop_at/set/get/rem/mem/concat/append/resize/sort/assign/copy, bulk push/pop "
-        "runs up to 120 elements) over Array/List of Int|String and heap Tuple of distinct heap objects, indices generated "
+RULE = ("case = container constructed empty or with up to 9 elements, then an op list (push/pop/push_at/pop_at/set/get/"
+        "rem/mem/concat/append/resize/sort and sort_by lt|gt|le|ge/assign/copy, bulk push/pop runs up to 120 elements, concat "
+        "and assign from sources of up to 150 elements, assign from a heap or stack Range) over Array/List of Int|String|"
+        "Blob (16-byte struct)|Tri (3-byte struct) and heap Tuple of distinct heap objects of these types, indices generated "
         "as in-range positions (positive and negative forms); after every mutation len, forward iteration, get(i) and "
-        "get(i-len) for all i are compared with a Python list; sort must give the ordered permutation; rem deletes the first "
-        "equal element. non-trivial = (Array) the backing store both grew and shrank (capacity read through the hook), or "
+        "get(i-len) for all i (len <= 40) and mem of every value of the element universe (present and absent) are compared "
+        "with a Python list; sort must give the ordered permutation; rem deletes the first equal element; push_at with a "
+        "negative index or with i == len (also on an empty container) is checked against the admissible set. "
+        "non-trivial = (Array) the backing store both grew and shrank (capacity read through the hook), or "
         "negative indices were used on >= 2 different operations, or a sequence with duplicate values was sorted. "
         "distinct = distinct case JSON.")
 ASSUMPTIONS = ["Python list is the reference sequence",
-               "push_at with a negative index or i == len is not generated (the three containers disagree on it; see DESIGN.md Appendix A)",
-               "List grow-resize pads with zero elements: generated for Int lists only; Tuples never hold one pointer twice (C11 known finding)"]
+               "push_at with a negative index or with i == len: the three containers disagree (DESIGN.md Appendix A), so the oracle "
+               "accepts 'inserted at the old-length or new-length position' resp. 'appended, or IndexOutOfBoundsError and unchanged' "
+               "and nothing else; the container is then brought back to a known state",
+               "List grow-resize pads with zero-filled elements: generated for Int/Blob/Tri lists only (a zero String has no buffer); "
+               "Tuples never hold one pointer twice (C11 known finding)",
+               "assign(array|list, tuple) re-types the target to Ref (documented): Tuple sources are replaced by List/Array sources there; "
+               "assign from a Range is taken from tests/test.c (test_array_assign, test_list_assign)"]
 
 
 def prepare(tier):
     return {"ex_vm": build.executor("asan", "ex_vm"), "fz_seq": build.executor("fuzz", "fz_seq", extra_ldflags=["-fsanitize=fuzzer"])}
 
 
-# coverage-guided companion (libFuzzer, ASan): Array<Int> and List<Int> in lock step against a plain C array, every
-# op followed by len / get (both index forms) / mem / forward and backward iteration and a generated Slice view
-# (harness/fz_seq.c)
+# coverage-guided companion (libFuzzer, ASan): Array<Int>, List<Int> and a heap Tuple of distinct heap Ints in lock step
+# against a plain C array (incl. plain sort and push_at with i == len under the admissible-set rule), every op followed
+# by len / get (both index forms) / mem / forward and backward iteration, a generated Slice view and, on request,
+# Zip(array, list) / Filter / Map views (harness/fz_seq.c)
 FUZZ = [{"target": "fz_seq", "runs": {"quick": 6000, "thorough": 2000000}, "max_len": 200}]
 
 
 def strategy(tier):
-    return seqs.seq_case()
+    return seqs.seq_case(ext=True)
 
 
 def run_case(ctx, case):
-    r = seqs.SeqRun(case)
+    r = seqs.SeqRun(case, check_mem=True)
     r.start()
     for op in case["ops"]:
         r.apply(op)
@@ -52,7 +62,8 @@ def run_case(ctx, case):
 
 
 def SAMPLE(case):
-    return {"kind": case["kind"], "et": case["et"], "ops": case["ops"][:14] + (["..."] if len(case["ops"]) > 14 else [])}
+    return {"kind": case["kind"], "et": case["et"], "init": case.get("init"),
+            "ops": case["ops"][:14] + (["..."] if len(case["ops"]) > 14 else [])}
 
 
 KNOWN = []
